@@ -129,6 +129,15 @@ CHECKS = {
             "must equal the sentinel output.",
             "GenshiFormatter and PyStemmerFilter need third-party packages that are not installed and are not exercised. DelimitedAttributeFilter input whose attribute text is not a number is invalid input and excluded.",
             "DESIGN.md section 2 C17"),
+    "C18": ("exploration",
+            "differential property-based testing (Hypothesis) of logical dumps across the storage x packing x writer-front-end product, with a harness-owned lock schedule for AsyncWriter, plus a model-based generated program against BufferedWriter's own searcher",
+            "frontends: generated operation lists in epochs are applied through the plain writer on a fresh directory (reference) and through 3 generated configurations of "
+            "{directory +/- mmap, RAM} x {compound, loose files} x {SegmentWriter, MpWriter procs 1-4 / batch 1-5 / merged or multisegment, BufferedWriter limit 1-5, AsyncWriter with "
+            "the lock free or held by another writer that then commits or cancels} x {merge=False, default, optimize} x {as is, copy_to_ram, reopened}; canonical logical dumps, probe "
+            "results, statistics/scores (delete-free lists) and group adjacency must agree. buffered: generated add/update/delete/commit/search programs against one BufferedWriter; "
+            "after every step its searcher must show exactly the model's documents, and after close() the index must.",
+            "MpWriter runs real sub-processes: which sub-process takes which batch is decided by the OS, so the check samples those schedules rather than enumerating them (the oracle holds for every one of them). The BufferedWriter flush timer is modelled as commit() at generated program points; no timer thread is started. SerialMpWriter (a test helper) is not covered.",
+            "DESIGN.md section 2 C18"),
     "C19": ("exploration",
             "exhaustive enumeration over small alphabets (sharded) + property-based testing (Hypothesis) against textbook edit-distance references",
             "small: every query word up to length 5 over {a,b} / 4 over {a,b,c} x d in 0..3 x prefix 0..4 against full and partial lexicons, on a one-segment (automaton) and a "
